@@ -62,7 +62,10 @@ def seeded_table():
         else:
             res = "MISSED" if m.get("check_exit") == 0 else "exit %s" % m.get("check_exit")
         if m.get("after_strengthening"):
-            res += "; " + m["after_strengthening"]
+            a = m["after_strengthening"]
+            if isinstance(a, dict):
+                a = a.get("summary") or a.get("result") or "; ".join("%s: %s" % kv for kv in a.items())
+            res += "; " + str(a)
         rows.append("| %s | %s | %s | %s | %s | %s |" % (
             os.path.basename(os.path.dirname(f)), m["property"], esc(m.get("summary", ""))[:260],
             esc(m.get("needs", ""))[:260], conf, res))
